@@ -106,7 +106,8 @@ class VariantMatcher:
             for pattern in variant_patterns:
                 all_params_match = True
                 for matching_param in pattern.get_matching_parameters():
-                    req_bytes = matching_param.get_ident_service(variant).encode_request()
+                    # encode_request() returns a (mutable, unhashable) bytearray
+                    req_bytes = bytes(matching_param.get_ident_service(variant).encode_request())
 
                     if isinstance(matching_param, MatchingBaseVariantParameter):
                         use_physical_addressing = matching_param.use_physical_addressing
